@@ -82,11 +82,18 @@ func Probe(args []string) int {
 			a = st.Args
 		}
 		err := w.Call(st.Op, a, &res)
-		fmt.Printf("%s %s\n  -> err=%v %s\n", st.Op, trunc(string(st.Args), 200), err, trunc(string(res), 1500))
+		fmt.Printf("%s %s\n  -> err=%v %s\n", st.Op, trunc(string(st.Args), 200), err, trunc(string(res), probeLimit()))
 		if w.Dead() {
 			fmt.Println(w.StderrTail())
 			return 1
 		}
 	}
 	return 0
+}
+
+func probeLimit() int {
+	if os.Getenv("VERIF_PROBE_FULL") != "" {
+		return 200000
+	}
+	return 1500
 }
